@@ -275,7 +275,27 @@ pub fn stub_ntstatus_from_u64(n: u64) -> Option<werr::NtStatusWindows> {
 #[kani::stub(<minidump_common::errors::WinErrorWindows as num_traits::FromPrimitive>::from_u64, stub_winerror_from_u64)]
 #[kani::stub(<minidump_common::errors::NtStatusWindows as num_traits::FromPrimitive>::from_u64, stub_ntstatus_from_u64)]
 fn c14_q_windows_error_code_decoding() {
-    let code: u32 = kani::any();
+    decoding(kani::any());
+}
+
+/// F: as c14_q_windows_error_code_decoding
+/// I: the upper 16 bits of the error code (severity, facility); the error field is 0 (ERROR_SUCCESS, a member of the real WinError table)
+/// B: one code
+/// A: as above
+/// O: as above. (Separate harness so that a counterexample also reproduces natively, where the real tables answer: with an arbitrary error field the real WinError lookup usually says "not a member" and hides a wrong facility decode.)
+#[kani::proof]
+#[kani::unwind(6)]
+#[kani::stub(<minidump_common::errors::WinErrorWindows as num_traits::FromPrimitive>::from_u64, stub_winerror_from_u64)]
+#[kani::stub(<minidump_common::errors::NtStatusWindows as num_traits::FromPrimitive>::from_u64, stub_ntstatus_from_u64)]
+fn c14_q_windows_error_code_decoding_known_error() {
+    let hi: u16 = kani::any();
+    decoding((hi as u32) << 16);
+}
+
+fn decoding(code: u32) {
+    unsafe {
+        TBL_N = 0;
+    }
     let r = CrashReason::from_windows_error(code);
     let n = unsafe { TBL_N };
     let c = unsafe { TBL_CALLS };
